@@ -112,6 +112,55 @@ CHECKS = {
   note="The rendered text of the summary line is checked on the real binary by the proc jobs (once built).",
   technique="stateless exhaustive exploration under a gated executor, counters compared with executor ground truth at every update",
  ),
+
+ "C02": dict(
+  engine="hist",
+  category="model_checking",
+  text="Exhaustive walk of the history tree: on a real directory tree with the real loader, log and scheduler (commands scripted), every history of depth 2 (thorough 3) over 8 project templates alternates an edit set (every single edit: touch each source/header, delete or touch each output/intermediate, delete a header, delete a declared source, change what a compiler reports, swap the manifest for each variant / let a generator write each variant; thorough: also compatible pairs in round one) and an invocation (default build, each single target, every completion order at -j2, a build with each failing command and -k1, n2 killed after 1-2 completions with fresh garbage left in the running commands' outputs, restat). After every successful invocation every wanted step must be clean in the reference model (an independent implementation of the manifest rule on the harness's own file table) and every output must carry the content tag a from-scratch topological evaluation of the current sources gives; failures must be reported for missing declared sources.",
+  design_ref="DESIGN.md §3.2, §3.7, §4 C02",
+  note="Assumptions are those of the property (mtime changes with content: logical clock; nothing else writes during a build; no phony aliases as dirtying inputs). Scripted compilers fail when a header they include does not exist; a remembered dependency on a generated file without an ordering path is n2's documented error and accepted as such.",
+  technique="exhaustive bounded history exploration of the real implementation against a reference model (clean-build oracle)",
+ ),
+ "C03": dict(
+  engine="hist",
+  category="model_checking",
+  text="Same history walk as C02, reporting the over-building clauses: every command n2 ran must have been dirty in the reference model at the moment it ran (no record, missing file, changed names/mtimes of dirtying inputs, discovered deps or outputs, changed command or rspfile); an identical invocation right after a successful one must run nothing and return 0 tasks whenever the model calls everything clean; restat must run no command and the following build may run only what the model still calls dirty. Templates include order-only inputs, restat-like commands that leave outputs untouched, subset-then-superset builds and superseded records.",
+  design_ref="DESIGN.md §4 C03",
+  note="The `no work to do` text itself is checked on the real binary by the proc jobs of C19.",
+  technique="exhaustive bounded history exploration against a reference model (run-set oracle)",
+ ),
+ "C07": dict(
+  engine="crash",
+  category="fault_enumeration",
+  text="Crash-point enumeration on the real log writer: a fault point before every write to .n2_db persists a chosen prefix and kills the invocation. For 8 histories (log creation, append to a loaded log, renumbering manifest edits, new path records, superseded records, -j2) the last build is repeated for every write index and every byte count 0..=len; afterwards the log is loaded through the facade (a step has a loaded record iff its record was persisted completely, with the written dependency list), a recovery invocation must run exactly what the reference model calls dirty and succeed with clean-build contents, and a third invocation must be a no-op. Thorough adds a second crash at every write of the recovery invocation.",
+  design_ref="DESIGN.md §3.3, §4 C07",
+  note="Crash model: the tail of the write in progress is lost, earlier writes are intact (append-only file, no reordering across writes).",
+  technique="exhaustive crash-point and torn-write enumeration with recovery checked against a reference model",
+ ),
+ "C08": dict(
+  engine="hist + dbrt",
+  category="model_checking",
+  text="(1) dbrt: through a facade onto db::open / Writer::write_build, records of every shape in {1..3 outputs} x {0,1,2,255,256,257,65535,65536,65537 dependencies} x ASCII/UTF-8 names, names of 1..4095 bytes in output and dependency position, and interleaved/superseded records are written, the file is reopened twice against a freshly loaded graph and loaded (hash, deps) must equal what was written (a record the format cannot hold may be dropped but must not disturb anything else). (2) attribution: all 26x26 assignments of three file names to {no step, step 1, step 2} in an old and a new manifest, every output order inside each old statement, several record orders: a record must apply iff all its outputs belong to one new step, latest wins. (3) the history walk of C02 on the templates whose variants reorder statements, add/remove unrelated statements and comments, rename rules, move or drop outputs: no re-run for behaviour-preserving edits, no misapplied record otherwise.",
+  design_ref="DESIGN.md §4 C08",
+  note="Names longer than 4095 bytes cannot reach the log (stat fails first) and are not generated.",
+  technique="exhaustive enumeration of record shapes and manifest re-assignments through the real reader/writer, plus bounded history exploration",
+ ),
+ "C09": dict(
+  engine="hist",
+  category="model_checking",
+  text="The history walk of C02 restricted to the templates with dependency-reporting commands (depfile and deps=msvc chains, a two-output step with a depfile, an order-only generated header that is also a discovered dependency): the report grows, shrinks, becomes empty, overlaps explicit/implicit inputs (dropped) and order-only inputs (kept), names one file under several spellings, a reported header is deleted; across failed builds, kills and restat. Run sets must equal the reference model's (the last successful report is remembered, replaced wholesale, a vanished dependency makes the step dirty and never fails the build). The /showIncludes filter is enumerated separately under C16.",
+  design_ref="DESIGN.md §4 C09",
+  note="Ordering neutrality of discovered dependencies is C01's monitor; a discovered dependency on a generated file without ordering path is n2's documented error.",
+  technique="exhaustive bounded history exploration against a reference model",
+ ),
+ "C17": dict(
+  engine="hist + sched",
+  category="model_checking",
+  text="Generator templates (manifest produced by a step whose input is shared with user steps in four ways, default name and -f name): the generator writes one of 8 variants (identical, add step, remove step, change command, rewire edge, lower pool depth, rename target, add pool) or fails; histories of generator-input edits interleaved with builds of default/named targets (hist), and every completion order of the regenerating invocation (sched family R). After a regeneration everything must be indistinguishable from a fresh invocation on the new text (closure, run set, clean-build contents, targets resolved in the new graph only); a failed regeneration runs nothing else and fails; a clean generator does not run and nothing settled in phase one runs twice.",
+  design_ref="DESIGN.md §4 C17",
+  note="Same trusted base as C01/C02.",
+  technique="exhaustive bounded history exploration plus completion-order exploration under a gated executor",
+ ),
 }
 
 NOT_YET = {}
